@@ -42,6 +42,8 @@ TEMPLATES = [
     "*=0x8000\njmp (0x1234)\njmp [0x1000]\neor (0x10,x)\neor [0x10]\nsbc 0x10,x\n",
     "*=0x8000\n.macro w(c) {\n{{c}}\nrts\n}\nw({\nnop\n})\n",
     "*=0x8000\nphp\npha\nrep #0x30\nsep #0x20\nxba\nplp\n",
+    # string literals holding layout characters: TAB, runs of spaces, comment openers
+    "*=0x8000\n.ascii 'a\tb'\nl1:\n.ascii '\t\tz;not a comment'\n.ascii '  two  spaces  '\n.ascii '/* no comment */'\n.dl l1\n.dw v\n",
 ]
 
 SAMPLE_PRELUDE = "*=0x8000\nsource = 0x123456\nvramptr = 0x10\ncount = 0x20\nmode = 1\ndma_transfer_to_vram = 0x028000\nvwf_shift_table = 0x7e1000\n"
